@@ -129,7 +129,7 @@ func greedyThenLiteral(p string) bool {
 }
 
 func check(c Case) vk.Verdict {
-	if strings.HasPrefix(c.Path, "//") || strings.ContainsAny(c.Path, "?#") || c.Path == "" || c.Path[0] != '/' {
+	if strings.ContainsAny(c.Path, "?#") || c.Path == "" || c.Path[0] != '/' {
 		return vk.Verdict{Skip: true}
 	}
 	ra, err := newRouteApp(c.cfg(), c.Pattern)
@@ -235,9 +235,7 @@ func admissible(toks []tok, vals []string, cs, strict bool) (path string, ok boo
 		}
 	}
 	path = pb.String()
-	if strings.HasPrefix(path, "//") {
-		return path, false, false
-	}
+
 	fold := func(s string) string {
 		if cs {
 			return s
